@@ -98,7 +98,7 @@ META = {
               "incl. generic modules, type arguments with conformance, placeholders, inheritance, clusters, all connection forms and links, for every hash-map order); the built simulation equals the denotation in modules, symbols, "
               "gates, connection slots and channel metrics (instantiate_connections_exact, transform_sound_complete); every rejection names a module/clause/symbol of the input that has the announced defect (error_kinds_descriptive)."),
         design_ref="DESIGN.md §5 C18",
-        note=("Models the code with the three F7 repairs applied. Not proved: equality of error kinds between transform and denotation on multiply-defective descriptions; real-cause witnesses for non-conformance and unknown gate/submodule; converse of instantiate = worldOf (false for dotted submodule names). Trusted: YAML layer, f64<->ms rendering, names without '.', "
+        note=("Models the code with the three F7 repairs applied. Not proved: equality of error kinds between transform and denotation on multiply-defective descriptions; real-cause witnesses for non-conformance and unknown gate/submodule; converse of instantiate = worldOf (false for dotted submodule names). Panic-freedom of FromStr/transform is judged on every generated input, also outside the supported fragment (kind=reject clause=transform_total). Trusted: YAML layer, f64<->ms rendering, names without '.', "
               "hash-order-dependent descriptions compared weakly."),
         technique=_T),
     "C06": dict(
